@@ -285,7 +285,7 @@ theorem execCore_guards : ∀ (o : Op) (m : M), GuardsKept m (execCore o m)
     exact tmpFinish_guardsKept (GuardsKept.of_eq (m1 := pushVals n m) rfl rfl (exec_guards body _))
   | .handler id body, m => by
     simp only [execCore]
-    exact handlerFinish_guardsKept (GuardsKept.of_eq (m1 := { m with vs := Slot.handler id :: m.vs }) rfl rfl (exec_guards body _))
+    exact handlerFinish_guardsKept (GuardsKept.of_eq (m1 := { m with vs := Slot.handler (id + 1) :: m.vs, efunCtx := (id + 1) :: m.efunCtx }) rfl rfl (exec_guards body _))
   | .setReg r v, m => by
     simp only [execCore]
     cases r <;> exact ⟨rfl, rfl⟩
